@@ -29,3 +29,6 @@ pub(crate) mod reconnect;
 pub mod retry;
 pub mod speculative_execution;
 pub mod timestamp_generator;
+#[cfg(scylla_verif)]
+#[allow(missing_docs)]
+pub use speculative_execution::verif_hooks as verif_speculative;
